@@ -3,6 +3,7 @@ from __future__ import annotations
 
 import glob
 import json
+import itertools
 import math
 import os
 from fractions import Fraction as Fr
@@ -37,6 +38,7 @@ RULE = ("all 20 shape classes + Constant x parameterisations (both directions, v
         "exterior, +-inf, NaN}; scalars plus 1-D and 2-D arrays per configuration; a case is non-trivial when the model value "
         "is a genuinely computed number (not 0, not the height, not NaN) or x sits exactly on a breakpoint; distinct = distinct "
         "(class, parameters, height, x)")
+RULE += (" Family `long Discrete`: Discrete terms of 2 .. 400 pairs (sizes around 16 / 32 / 64 / 128 / 256 and random ones; up to 600 in the thorough tier) shaped as staircases, sawteeth, random walks with runs of pairs on one abscissa (vertical edges) and strictly increasing polylines, on dyadic and decimal grids, evaluated at edges, their floating-point neighbours, strictly inside the segments on both sides of an edge, outside, +-inf, NaN; scalar, every array layout, against Op.interp and the independent exact interpolation (at a vertical edge the pair written last gives the value, as for numpy.interp).")
 ASSUMPTIONS = ["float evaluation compared with the exact value within 1e-9 abs + 1e-9 rel (on squares for the "
                "sqrt-of-cancellation values of Arc and SemiEllipse); exp/sqrt/cos/pow of the model through the 2^-128 "
                "fixed-point oracle",
@@ -625,6 +627,71 @@ def stream(ctx):
                     yield cls, p, h, xs, "nice-hot"
 
 
+def discrete_pairs(rng, n, shape, grid):
+    """n (x, y) pairs in non-decreasing order of x.  A Discrete term is a polyline: a vertical edge is written as two (or
+    more) consecutive pairs with the same x - a step function, a sawtooth, a rectangle given by its corners"""
+    x = grid(rng.randint(-40, 40))
+    gap = lambda: grid(rng.choice([1, 1, 2, 3, 5]))            # noqa: E731
+    lvl = lambda: rng.choice([0.0, 1.0, 0.5, 0.25, 0.75, rng.randint(0, 16) / 16, round(rng.random(), 2)])  # noqa: E731
+    xs, ys = [x], [lvl()]
+    while len(xs) < n:
+        k = len(xs)
+        if shape == "staircase":               # (x0,y0) (x1,y0) (x1,y1) (x2,y1) ...: flat, jump, flat, jump
+            if k % 2:
+                x += gap()
+                xs.append(x), ys.append(ys[-1])
+            else:
+                xs.append(x), ys.append(rng.choice([v for v in (lvl(), lvl(), 1.0, 0.0) if v != ys[-1]]))
+        elif shape == "sawtooth":              # rise along a segment, drop along a vertical edge
+            if k % 2:
+                x += gap()
+                xs.append(x), ys.append(rng.choice([1.0, 0.75, lvl() or 0.5]))
+            else:
+                xs.append(x), ys.append(rng.choice([0.0, 0.0, 0.25]))
+        elif shape == "random-walk":           # any mixture: runs of two, three or four pairs on one abscissa
+            if rng.random() < 0.55:
+                x += gap()
+            xs.append(x), ys.append(lvl())
+        else:                                  # "increasing": no vertical edge
+            x += gap()
+            xs.append(x), ys.append(lvl())
+    return [float(v) for pair in zip(xs, ys) for v in pair]
+
+
+def long_discrete(ctx):
+    """Discrete terms of every size - the handful of pairs of the main stream up to a few hundred - with and without vertical
+    edges, in the format of `stream`.  The definition (linear interpolation between the two pairs that enclose x) does not
+    depend on how many pairs there are, and a library may well treat long arrays differently from short ones (sorting,
+    searching and interpolation routines switch algorithms with the size).  Each term is evaluated at some of its edges,
+    at their two floating-point neighbours, strictly inside the segments on both sides of an edge, outside, at +-inf and NaN."""
+    rng = ctx.rng
+    sizes = [2, 3, 4, 5, 7, 12, 16, 17, 31, 32, 33, 63, 64, 65, 66, 67, 100, 128, 129, 200, 256, 257,
+             rng.randint(68, 400), rng.randint(68, 400)]
+    if ctx.thorough:
+        sizes += [rng.randint(8, 600) for _ in range(40)]
+    npts = ctx.scale(6, 12)
+    for i, n in enumerate(sizes):
+        for shape in ("staircase", "sawtooth", "random-walk", "increasing"):
+            if n > 16 and (i + len(shape)) % 2 and not ctx.thorough:
+                continue                       # in the quick tier every other (size, shape) of the long ones
+            pool, grid = rng.choice([("dyadic", lambda k: k / 16), ("nice", lambda k: k / 100), ("dyadic", lambda k: k / 4)])
+            p = discrete_pairs(rng, n, shape, grid)
+            h = rng.choice([1.0, 1.0, 0.5, rng.randint(1, 100) / 100])
+            ab = sorted(set(p[0::2]))
+            edges = sorted({a for a, b in zip(p[0::2], p[2::2]) if a == b}) or ab
+            xs = []
+            few = npts if n <= 33 else max(2, npts // 2)          # the long terms cost the exact model more per point
+            for a in rng.sample(edges, min(few, len(edges))) + ([ab[0], ab[-1]] if n <= 33 else [ab[-1]]):
+                j = ab.index(a)
+                xs += [(a, "breakpoint"), (float(np.nextafter(a, -INF)), "neighbour"), (float(np.nextafter(a, INF)), "neighbour")]
+                if j > 0:
+                    xs += [(0.5 * (ab[j - 1] + a), "midpoint"), (ab[j - 1] + rng.random() * (a - ab[j - 1]), "interior")]
+                if j + 1 < len(ab):
+                    xs += [(0.5 * (a + ab[j + 1]), "midpoint"), (a + rng.random() * (ab[j + 1] - a), "interior")]
+            xs += [(ab[0] - 1.5, "exterior"), (ab[-1] + 2.5, "exterior"), (INF, "inf"), (-INF, "inf"), (NAN, "nan")]
+            yield "Discrete", p, h, xs, f"{pool}-{shape}"
+
+
 def correspond(ctx):
     st = ctx.stats
     mism = []
@@ -634,11 +701,39 @@ def correspond(ctx):
         st.count("corpus")
         if not ok:
             mism.append({"case": case, "violation": True, "detail": detail, "what": f"corpus case {name}: {detail}"})
-    cfgs = list(stream(ctx))
+    judge(ctx, list(stream(ctx)), mism)
+    # ---- vertical edges of S / Z / Pi shapes; parameters re-assigned in place on an already evaluated object
+    for cls, p, h in degenerate_cases(ctx):
+        ok, x, d = check_degenerate(cls, p, h)
+        st.count("degenerate")
+        if not ok:
+            mism.append({"case": {"cls": cls, "params": p, "height": h, "x": x, "degenerate": True}, "violation": True,
+                         "detail": d, "what": d})
+    for cls, p1, p2, h in reparam_cases(ctx):
+        ok, x, d = check_reparam(cls, p1, p2, h, lambda c, q: xpoints(c, q, ctx.rng, 2))
+        st.count("reparam")
+        if not ok:
+            mism.append({"case": {"cls": cls, "params": p2, "height": h, "x": x, "built_with": p1}, "violation": True,
+                         "detail": d, "what": d})
+    # ---- drawn after every earlier stream: Discrete terms of every size, with vertical edges
+    judge(ctx, list(long_discrete(ctx)), mism)
+    # ---- the registered shape classes are the ones the model covers
+    fm = fl.settings.factory_manager
+    reg = sorted(k for k in fm.term.constructors if k)
+    ctx.notes["registered_terms"] = reg
+    return mism
+
+
+def judge(ctx, cfgs, mism):
+    """every point of every configuration: implementation against the regenerated model and the documented closed form;
+    per configuration: arrays and monotonicity"""
+    st = ctx.stats
     lines, index = [], []
     for ci, (cls, p, h, xs, pool) in enumerate(cfgs):
+        # the text of a long list of pairs is written once per configuration
+        head = "(discrete " + C.sx(list(p)) + " " + C.sx(h) + " " if cls == "Discrete" and len(p) > 40 else None
         for x, kind in xs:
-            lines.append(command(cls, p, h, x))
+            lines.append(head + C.sx(x) + ")" if head else command(cls, p, h, x))
             index.append((ci, x, kind))
     outs = ctx.driver.eval(lines)
     terms = {}
@@ -696,24 +791,6 @@ def correspond(ctx):
                 bad = next((x for x, v in pts if not check_point(cls, p, h, x, term, v)[0]), allx[0])
                 mism.append({"case": {"cls": cls, "params": p, "height": h, "x": bad}, "violation": True, "detail": detail,
                              "what": detail})
-    # ---- vertical edges of S / Z / Pi shapes; parameters re-assigned in place on an already evaluated object
-    for cls, p, h in degenerate_cases(ctx):
-        ok, x, d = check_degenerate(cls, p, h)
-        st.count("degenerate")
-        if not ok:
-            mism.append({"case": {"cls": cls, "params": p, "height": h, "x": x, "degenerate": True}, "violation": True,
-                         "detail": d, "what": d})
-    for cls, p1, p2, h in reparam_cases(ctx):
-        ok, x, d = check_reparam(cls, p1, p2, h, lambda c, q: xpoints(c, q, ctx.rng, 2))
-        st.count("reparam")
-        if not ok:
-            mism.append({"case": {"cls": cls, "params": p2, "height": h, "x": x, "built_with": p1}, "violation": True,
-                         "detail": d, "what": d})
-    # ---- the registered shape classes are the ones the model covers
-    fm = fl.settings.factory_manager
-    reg = sorted(k for k in fm.term.constructors if k)
-    ctx.notes["registered_terms"] = reg
-    return mism
 
 
 def param_names(cls):
@@ -805,7 +882,7 @@ def search(ctx):
         ok, x, d = check_reparam(cls, p1, p2, h, lambda c, q: xpoints(c, q, ctx.rng, 2))
         if not ok:
             return [({"cls": cls, "params": p2, "height": h, "x": x, "built_with": p1}, d)]
-    for cls, p, h, xs, pool in stream(ctx):
+    for cls, p, h, xs, pool in itertools.chain(stream(ctx), long_discrete(ctx)):
         term = make(cls, p, h)
         for x, _ in xs:
             ok, d = check_point(cls, p, h, x, term)
